@@ -578,6 +578,11 @@ def run_profile(name, vw, widths, offsets, shape, seed, amp, errTol=1e-6, offEq=
                                                          else "deflagration")
     wp = WallParams(widths=np.array(widths[:nf]) / TN, offsets=np.array(offsets[:nf]))
     eom._updateGrid(wp, vMid)               # pylint: disable=protected-access
+    if not (thermo.TMinLowT <= Tm <= thermo.TMaxLowT and thermo.TMinHighT <= Tp <= thermo.TMaxHighT):
+        # outside the traced phases the EOS is an extrapolation, not the potential's
+        out["nohydro"] = True
+        out["why"] = "T+/T- outside the tabulated phases"
+        return out
     try:
         phiLow = thermo.freeEnergyLow(Tm).fieldsAtMinimum
         phiHigh = thermo.freeEnergyHigh(Tp).fieldsAtMinimum
